@@ -44,17 +44,17 @@ Definition reviewed : list (string * string * string * string * string) := [
      "sorted: C07_sort (objects.sort_by / ordered.sort(), derived total orders on distinct elements)");
   ("msl/src/generator/intrinsic_helpers.rs", "generate_helpers", "arg:helpers", "sorted ordered.sort() @48fa373fe9",
      "sorted: C07_sort (objects.sort_by / ordered.sort(), derived total orders on distinct elements)");
-  ("msl/src/generator/pipeline.rs", "generate_pipeline", "for:&mutbinding_layout.0", "reduce @0171f84691",
+  ("msl/src/generator/pipeline.rs", "generate_pipeline", "for:&mutbinding_layout.0", "reduce @f71ee66ce9",
      "not-hash: BindingLayout / ArgumentBuffer wrap a Vec");
-  ("msl/src/generator/pipeline.rs", "generate_pipeline", "for:&mutargument_buffer.0", "reduce @0171f84691",
+  ("msl/src/generator/pipeline.rs", "generate_pipeline", "for:&mutargument_buffer.0", "reduce @f71ee66ce9",
      "not-hash: BindingLayout / ArgumentBuffer wrap a Vec");
-  ("msl/src/generator/pipeline.rs", "generate_pipeline", "&mutbinding_layout.0.iter(", "ordered @0171f84691",
+  ("msl/src/generator/pipeline.rs", "generate_pipeline", "&mutbinding_layout.0.iter(", "ordered @f71ee66ce9",
      "not-hash: BindingLayout / ArgumentBuffer wrap a Vec");
-  ("msl/src/generator/pipeline.rs", "generate_pipeline", "for:&argument_buffer.0", "into-set @0171f84691",
+  ("msl/src/generator/pipeline.rs", "generate_pipeline", "for:&argument_buffer.0", "into-set @f71ee66ce9",
      "not-hash: BindingLayout / ArgumentBuffer wrap a Vec");
-  ("msl/src/generator/pipeline.rs", "generate_pipeline", "binding_layout.0.iter_mut(", "ordered @0171f84691",
+  ("msl/src/generator/pipeline.rs", "generate_pipeline", "binding_layout.0.iter_mut(", "ordered @f71ee66ce9",
      "not-hash: BindingLayout / ArgumentBuffer wrap a Vec");
-  ("msl/src/generator/pipeline.rs", "generate_pipeline", "for:&argument_buffer.0", "collected-unsorted @0171f84691",
+  ("msl/src/generator/pipeline.rs", "generate_pipeline", "for:&argument_buffer.0", "collected-unsorted @f71ee66ce9",
      "not-hash: BindingLayout / ArgumentBuffer wrap a Vec");
   ("parser/src/parser/expressions.rs", "parse_expression_resolve_symbols", "for:symbols", "into-set @f1ae854ece",
      "not-hash: a Vec");
